@@ -1,6 +1,7 @@
 package sshagent
 
 import (
+	"bytes"
 	"crypto"
 	"crypto/dsa"
 	"crypto/ecdsa"
@@ -11,6 +12,8 @@ import (
 	"crypto/sha256"
 	"crypto/sha512"
 	"testing"
+
+	"golang.org/x/crypto/ssh/agent"
 )
 
 // Self-tests of the witness code (not a property check): key files parse,
@@ -111,5 +114,38 @@ func TestSelfKeysAndVerifier(t *testing.T) {
 	}
 	if verifySig(keyByNm["ed25519b"].pub, "ssh-ed25519", ed25519.Sign(keyByNm["ed25519"].priv.(ed25519.PrivateKey), data), data) == nil {
 		t.Fatal("signature of another key accepted")
+	}
+}
+
+// The harness's own add-request encoder produces requests the server accepts
+// for every key of the pool (so the mutation bases of the frame stream are
+// valid), and the resulting identity is the ssh-keygen blob.
+func TestSelfEncoders(t *testing.T) {
+	keys, err := loadKeys()
+	if err != nil {
+		t.Fatal(err)
+	}
+	for _, k := range keys {
+		for _, cons := range [][]byte{nil, consLife(77)} {
+			kr := agent.NewKeyring()
+			in := append(frame(encAdd(k, "cmt", cons)), frame([]byte{11})...)
+			var out bytes.Buffer
+			agent.ServeAgent(kr, rwPair{bytes.NewReader(in), &out})
+			reps := splitFrames(out.Bytes())
+			if len(reps) != 2 || len(reps[0]) != 1 || reps[0][0] != 6 {
+				t.Fatalf("%s: add not accepted: %x", k.name, out.Bytes())
+			}
+			r := &rd{b: reps[1]}
+			if r.u8() != 12 || r.u32() != 1 || !bytes.Equal(r.str(), k.blob) || string(r.str()) != "cmt" || r.err != nil || len(r.b) != 0 {
+				t.Fatalf("%s: listing differs: %x", k.name, reps[1])
+			}
+			h := hop{key: k, comment: "cmt"}
+			if cons != nil {
+				h.life = 77
+			}
+			if e := checkAddFrame(encAdd(k, "cmt", cons), h); e != "" {
+				t.Fatalf("%s: decoder/encoder disagree: %s", k.name, e)
+			}
+		}
 	}
 }
